@@ -240,7 +240,7 @@ class GenericElongationGroove(GrooveBase, ReprMixin):
         return self.cross_section.centroid.y
 
     def local_depth(self, z) -> Union[float, np.ndarray]:
-        z = np.abs(z)
+        z = np.abs(np.asarray(z, dtype=float))
 
         return np.piecewise(
             z,
